@@ -12,7 +12,9 @@ TECHNIQUE = ("model-based property testing: generated scheduler trees (depth <= 
              "universe of jobs some of which belong to no scheduler, with arbitrary requirement "
              "edges (to outsiders, siblings' members, parents' and children's members, to and "
              "from nested schedulers); oracle = before/after snapshot of every required set "
-             "against the intersection model, return value of a first and a second call")
+             "against the intersection model, return value of a first and a second call; in half "
+             "of the cases requirements are then added (no membership change) and the whole "
+             "judgement is made again on a third and a fourth call")
 LEVEL_TEXT = ("generated search against an exact set model; complete enumeration of a small "
               "family (two-level trees with <= 2+2 jobs and one outsider, every edge subset up "
               "to 2^12) in the thorough tier")
@@ -68,8 +70,15 @@ def trees(draw):
             depth.append(depth[holder] + 1)
         edges = edges + [[base + k, base + width] for k in range(width)]
         n = len(kinds)
+    # requirements added AFTER a first sanitize() (no membership change), then sanitize() again
+    edges2 = []
+    if draw(st.booleans()):
+        small = min(n, 12)
+        edges2 = [list(e) for e in draw(st.lists(
+            st.tuples(st.integers(1, small - 1), st.integers(1, small - 1)),
+            min_size=1, max_size=4)) if e[0] != e[1]]
     return dict(top=draw(st.sampled_from(['pure', 'nestable'])), kinds=kinds,
-                parents=parents, edges=edges,
+                parents=parents, edges=edges, edges2=edges2,
                 hkeys=[draw(st.integers(0, 15)) for _ in range(n)],
                 verbose=draw(st.integers(0, 4)) == 0,
                 outsiders_ran=draw(st.integers(0, 3)) == 0)
@@ -133,6 +142,24 @@ def evaluate(case):
         return True
     members = {i: {k for k in range(1, n) if parents[k] == i} for i in range(n)
                if kinds[i] == 'sched'}
+    for round_no in (1, 2):
+        if round_no == 2:
+            if not case.get('edges2') or res.violations:
+                break
+            with quiet():
+                for a, b in case['edges2']:
+                    objs[b].requires(objs[a])
+            res.label('edited-after-sanitize')
+        _judge(case, objs, members, in_tree, res,
+               'after the edits made since the last sanitize(): ' if round_no == 2 else '')
+    if 'dirty' not in res.labels:
+        res.label('clean')
+    return res
+
+
+def _judge(case, objs, members, in_tree, res, tag):
+    kinds, parents = case['kinds'], case['parents']
+    n = len(objs)
     before = {i: {k for k in range(n) if objs[k] in objs[i].required} for i in range(1, n)}
     expected = {}
     dangling_below = False
@@ -157,17 +184,17 @@ def evaluate(case):
             lost = expected[i] - after[i]
             if lost:
                 res.fail('C16:requirement-between-members-removed',
-                         "o%d (member of o%s) lost requirement(s) %s although they are members "
+                         tag + "o%d (member of o%s) lost requirement(s) %s although they are members "
                          "of the same scheduler; before=%s after=%s"
                          % (i, parents[i], sorted(lost), sorted(before[i]), sorted(after[i])))
             if kept_wrong:
                 res.fail('C16:dangling-requirement-kept',
-                         "o%d (member of o%s, members %s) still requires %s after sanitize()"
+                         tag + "o%d (member of o%s, members %s) still requires %s after sanitize()"
                          % (i, parents[i], sorted(members.get(parents[i], ())),
                             sorted(kept_wrong)))
     if first is not (not anything):
         res.fail('C16:first-call-return-value',
-                 "sanitize() returned %r although %s requirement had to be removed "
+                 tag + "sanitize() returned %r although %s requirement had to be removed "
                  "(nested schedulers: %s)" % (first, 'some' if anything else 'no',
                                               [i for i in members if i and in_tree(i)]))
     with quiet():
@@ -184,5 +211,8 @@ def evaluate(case):
     if not anything and nested:
         res.nontrivial = True
         res.label('clean-tree-with-nesting')
-    res.label('dirty' if anything else 'clean')
-    return res
+    if anything:
+        res.label('dirty')
+        if tag:
+            res.nontrivial = True
+            res.label('dirty-again-after-edits')
